@@ -101,7 +101,7 @@ Definition thread_ch (th : thread) : ch :=
   | TUns u => u_ch u
   | TCls k => match k_cur k with Some u => u_ch u | None => 99 end
   | TTck k => match t_pc k with
-              | TAdd => hd 99 (t_todo k)
+              | TAdd => hd 99 (map fst (t_todo k))
               | TCompRem => hd 99 (t_rem k)
               | _ => 99
               end
@@ -124,11 +124,16 @@ Definition parked_at (ar : gk -> bool) (s : st) (g : gk) (c : ch) (t : tid) : bo
    and is redone when its turn comes). *)
 Definition bring_front (c : ch) (l : list ch) : list ch :=
   if existsb (N.eqb c) l then c :: remove1 c l else l.
+Definition bring_front_p (c : ch) (l : list (ch * gen)) : list (ch * gen) :=
+  match find (fun p => fst p =? c) l with
+  | Some p => p :: filter (fun q => negb (fst q =? c)) l
+  | None => l
+  end.
 Definition retarget_tick (s : st) (t : tid) (c : ch) : st :=
   match thr s t with
   | Some (TTck k) =>
       match t_pc k with
-      | TAdd => thr_set t (TTck (mkT TAdd (bring_front c (t_todo k)) (t_added k) (t_rem k))) s
+      | TAdd => thr_set t (TTck (mkT TAdd (bring_front_p c (t_todo k)) (t_added k) (t_rem k))) s
       | TCompRem => thr_set t (TTck (mkT TCompRem (t_todo k) (t_added k) (bring_front c (t_rem k)))) s
       | _ => s
       end
